@@ -24,12 +24,29 @@ fn cases(ob: &str) -> Vec<String> {
             }
         }
     }
-    for t in ["", ")", "(", "#", "\"abc", "(a . )", "1.", "#\\", "]", "(]", "#u8(300)", "a)b", ") ) )", "(1 #z) 2", "#(1 #z) 2", "(1 (2 #z) 3) 4", "[1 #z] 2", "(a . #z) b", "#u8(1 x) 2", "(1 2", "\"x", "1 #z 2"] {
+    for (ti, _) in trivia().iter().enumerate() { for si in 0..token_seqs().len() { out.push(format!("triv:{}:{}", ti, si)); } }
+    out.push("leak:0".into()); out.push("leak:1".into());
+    for t in ["(a . b )", "(1 2 . 3\n)", "(a . b ;c\n)", "( a )", "(a . b\t) c", "[a . b ]", "#( 1 )", "#u8( 1 2 )", "' a", "'#z '#z (a)", "", ")", "(", "#", "\"abc", "(a . )", "1.", "#\\", "]", "(]", "#u8(300)", "a)b", ") ) )", "(1 #z) 2", "#(1 #z) 2", "(1 (2 #z) 3) 4", "[1 #z] 2", "(a . #z) b", "#u8(1 x) 2", "(1 2", "\"x", "1 #z 2"] {
         out.push(format!("iter:{}", crate::hex(t.as_bytes())));
     }
     out
 }
 
+/// token sequences: joined by single spaces they denote some datums; replacing any one separator by other trivia (or adding trivia
+/// at either end) must not change what is read, through the value path and the datum path
+fn token_seqs() -> Vec<Vec<&'static str>> {
+    vec![vec!["(", "a", ".", "b", ")"], vec!["(", "1", "2", ".", "3", ")", "x"], vec!["(", "a", "(", "b", ".", "c", ")", ")"], vec!["[", "a", ".", "b", "]"], vec!["#(", "1", "(", "2", ")", ")"],
+         vec!["#u8(", "1", "2", ")"], vec!["'", "a", "`", "(", ",", "b", ",@", "c", ")"], vec!["(", ")", "(", "(", ")", ")"], vec!["\"s\"", "#\\a", "12", "#t", "(", "-", "+", "...", ")"], vec!["(", "a", ".", "(", "b", ".", "(", ")", ")", ")"]]
+}
+fn read_all(text: &str, datum: bool) -> Vec<String> {
+    let mut p = Parser::from_str(text);
+    let mut out = vec![];
+    for _ in 0..64 {
+        let r = if datum { p.next_datum().map(|o| o.map(|d| d.value().clone())) } else { p.next_value() };
+        match r { Ok(Some(v)) => out.push(format!("Ok({})", v)), Ok(None) => break, Err(e) => { out.push(format!("Err({:?})", e.classify())); break; } }
+    }
+    out
+}
 fn check(case: &str) -> Option<String> {
     let p: Vec<&str> = case.split(':').collect();
     match p[0] {
@@ -48,6 +65,39 @@ fn check(case: &str) -> Option<String> {
                 let mut p2 = Parser::from_str(&text);
                 let d: Vec<_> = p2.datum_iter().map(|r| r.map(|d| d.value().clone())).collect();
                 if d.len() != 2 || d[0].as_ref().ok() != Some(&a) || d[1].as_ref().ok() != Some(&b) { return Some(format!("datum_iter disagrees on {:?}", text)); }
+            }
+            None
+        }
+        "triv" => {
+            let t = trivia()[p[1].parse::<usize>().ok()?];
+            let toks = token_seqs().into_iter().nth(p[2].parse::<usize>().ok()?)?;
+            let base = toks.join(" ");
+            let want = read_all(&base, false);
+            if want.iter().any(|s| s.starts_with("Err")) { return Some(format!("{:?} does not parse: {:?}", base, want)); }
+            for at in 0..=toks.len() {
+                let mut text = String::new();
+                for (i, tk) in toks.iter().enumerate() { if i == at { text.push_str(t); } else if i > 0 { text.push(' '); } text.push_str(tk); }
+                if at == toks.len() { text.push_str(t); }
+                for datum in [false, true] {
+                    let got = read_all(&text, datum);
+                    if got != want { return Some(format!("{:?} reads as {:?} through the {} path, but {:?} (single spaces) reads as {:?}", text, got, if datum { "datum" } else { "value" }, base, want)); }
+                }
+            }
+            None
+        }
+        "leak" => {
+            // one long-lived parser: errors inside quotations / lists / vectors must not use up the nesting budget for what follows
+            let datum = p[1] == "1";
+            for bad in ["'#z ", "`#z ", ",@#z ", "(#z) ", "#(#z) ", "'(#z) ", "(a . #z) ", "''#z "] {
+                let text = format!("{}{}{}", bad.repeat(200), "(".repeat(120), ")".repeat(120));
+                let mut parser = Parser::from_str(&text);
+                let mut last = String::new();
+                let mut ok = false;
+                for _ in 0..2000 {
+                    let r = if datum { parser.next_datum().map(|o| o.map(|d| d.value().clone())) } else { parser.next_value() };
+                    match r { Ok(Some(v)) => { if v.is_list() && !v.is_null() { ok = true; break; } } Ok(None) => break, Err(e) => { last = e.to_string(); } }
+                }
+                if !ok { return Some(format!("after 200 failed items {:?} a 120-deep list is no longer read by the same parser ({} path): last error {:?}", bad, if datum { "datum" } else { "value" }, last)); }
             }
             None
         }
